@@ -43,6 +43,13 @@ fn conc_opts() -> ExecOpts {
     ExecOpts::default()
 }
 
+/// concurrent scenarios on futures queues in which poll / start_send / poll_complete are bound in
+/// their own steps (C15: they never wait inside the call; C14: a task that spins inside poll never
+/// parks and is never the subject of a notification)
+fn fut_conc_opts() -> ExecOpts {
+    ExecOpts { fut_quiet: true, ..ExecOpts::default() }
+}
+
 // ---- classification helpers ----------------------------------------------------------------
 
 fn cfg_classes(sc: &Scenario, info: &mut CaseInfo) {
@@ -477,7 +484,7 @@ fn c15_conc_strategy(_t: Tier) -> BoxedStrategy<Scenario> {
         gen::qcfg(BOTH, FutMode::Always, gen::cap_small(), gen::wait_any()),
         fut_traffic_params(),
         400,
-        conc_opts(),
+        fut_conc_opts(),
     )
 }
 
@@ -496,7 +503,12 @@ fn c15_conc_oracle(sc: &Scenario, ex: &Execution, info: &mut CaseInfo) -> Vec<Fi
     let (wrap, overlap) = conc_common(sc, ex, info);
     let h = Hist::build(sc, ex);
     info.nontrivial = wrap && overlap && (ex.stats.not_ready_poll + ex.stats.not_ready_send > 0);
-    traffic_findings(&h, info)
+    let mut f = traffic_findings(&h, info);
+    // a poll / start_send that spins inside the call beyond what its spin counts allow
+    if !f.iter().any(|x| x.kind == "CallDoesNotReturn") {
+        f.extend(keep(orc::verdict_findings(&h, false), &["CallDoesNotReturn"]));
+    }
+    f
 }
 
 // ---- C05 -----------------------------------------------------------------------------------
@@ -1127,7 +1139,7 @@ fn tasks_strategy_base(t: Tier) -> BoxedStrategy<Scenario> {
             t,
         ),
         sched_len(t, 500),
-        conc_opts(),
+        fut_conc_opts(),
     )
 }
 
@@ -1144,10 +1156,14 @@ fn c14_oracle(sc: &Scenario, ex: &Execution, info: &mut CaseInfo) -> Vec<Finding
     info.class(format!("stream_NotReady={}", ex.stats.not_ready_poll.min(3)));
     info.class(format!("values_taken_through_direct_methods={}", direct));
     info.nontrivial = parked > 0 && overlap;
-    keep(
+    let mut f = keep(
         note_stuck(&h, info),
         &["ParkedStreamTask", "ParkedSinkTask", "ParkedSinkNoReceiver"],
-    )
+    );
+    // a task that spins inside poll / start_send instead of returning NotReady never parks: it can
+    // make no progress and is never notified either
+    f.extend(keep(orc::verdict_findings(&h, false), &["CallDoesNotReturn"]));
+    f
 }
 
 // ---- C16 -----------------------------------------------------------------------------------
